@@ -273,6 +273,34 @@ func TestC02(t *testing.T) {
 				}
 			}
 		}
+		// other transfer-buffer configurations (--buffer-size): tiny, small, and the unpooled copier (size <= 0)
+		for _, bs := range []int64{1, 4096, -1} {
+			for gi, g := range G {
+				if gi%7 != 0 || (bs == 1 && g.n > 4096) {
+					continue
+				}
+				for _, crit := range []bool{false, true} {
+					idx++
+					if !r.Mine(idx) {
+						continue
+					}
+					reqs := []Req{open, mk(crit, g), mk(!crit, g)}
+					m := mkModel()
+					res := runSession(t, SrvOpts{Root: w.Root, BufSize: bs}, m, reqs, Delivery{})
+					r.Transition(int64(len(res.Steps)))
+					r.Eval(1)
+					key := sprintf("%s|bufsize%d|%s", o.path, bs, strings.Join(reqStrings(reqs), ","))
+					r.State(key)
+					r.Nontrivial(key)
+					for _, st := range res.Steps {
+						r.Outcome(o.kind + ":bufsize:" + st.Class)
+					}
+					if res.Why != "" {
+						r.Violation("C02:"+o.kind+":bufsize:"+res.WhySig, sprintf("%s with transfer buffer size %d: %s", o.path, bs, res.Why), map[string]any{"object": o.path, "buffer_size": bs, "requests": reqs, "steps": res.Steps})
+					}
+				}
+			}
+		}
 		// hidden-cursor family: another file is read up to position P, then this object is opened (without
 		// CLOSEFILE) and first read exactly at offset P; and the same after a CD-style read
 		for gi, g := range G {
